@@ -1,5 +1,5 @@
 (* Family T — the scan buffer pool: class arithmetic and the ownership discipline (Model/ScanPool.v). *)
-From BS Require Import Model.ScanPool.
+From BS Require Import Model.Validate Model.ScanPool.
 From Coq Require Import List ZArith NArith Bool Lia.
 Import ListNotations.
 Open Scope Z_scope.
@@ -240,4 +240,70 @@ Proof.
   split; intro H.
   - assert (o_next s < o_next s)%N by (apply (iv_below s Hi); tauto). lia.
   - subst r. assert (o_next s < o_next s)%N by (apply (iv_below s Hi); tauto). lia.
+Qed.
+
+(* ---- readPooledBlockRowData as a program ---- *)
+Lemma oget_held s r size cap s' : ostep s (OGet r size cap) = Some s' ->
+  o_held s' = (r, cap) :: o_held s /\ assoc_n r (o_held s) = None.
+Proof.
+  cbn [ostep]. destruct (assoc_n r (o_held s)); [discriminate|].
+  destruct (mem_n r (o_delivered s)); [discriminate|]. destruct (cap <? size); [discriminate|].
+  destruct (assoc_n r (o_pooled s)) as [[k c]|].
+  - destruct (get_class size); try discriminate. destruct ((k =? k0) && (c =? cap)); [|discriminate].
+    intro H; inversion H; auto.
+  - destruct (r <? o_next s)%N; [discriminate|]. destruct (get_class size); [discriminate| |].
+    + destruct (cap0 =? cap); [|discriminate]. intro H; inversion H; auto.
+    + destruct (cap =? 2 ^ k); [|discriminate]. intro H; inversion H; auto.
+Qed.
+
+Lemma oput_held s r cap s' : ostep s (OPut r cap) = Some s' ->
+  o_held s' = remove_n r (o_held s) /\ assoc_n r (o_held s) = Some cap.
+Proof.
+  cbn [ostep]. destruct (assoc_n r (o_held s)) as [c|]; [|discriminate].
+  destruct (Z.eqb_spec c cap) as [E|NE]; cbn [negb]; [|discriminate]. subst c.
+  destruct (put_class cap); intro H; inversion H; auto.
+Qed.
+
+Lemma assoc_remove_same {A} r (l : list (N * A)) : assoc_n r (remove_n r l) = None.
+Proof.
+  induction l as [|[k v] t IH]; cbn; [reflexivity|].
+  destruct (N.eqb_spec k r) as [E|NE]; [exact IH|]. cbn. destruct (N.eqb_spec k r); [contradiction|exact IH].
+Qed.
+
+Lemma oput_enabled s r cap : assoc_n r (o_held s) = Some cap ->
+  exists s', ostep s (OPut r cap) = Some s' /\ o_held s' = remove_n r (o_held s).
+Proof.
+  intro H. cbn [ostep]. rewrite H, Z.eqb_refl. cbn [negb]. destruct (put_class cap); eexists; split; reflexivity.
+Qed.
+
+(* C03: for either branch -- and the legacy empty compression value takes the branch of "none" --
+   the buffer whose bytes the caller scans is held by this scan when the read returns, with the
+   capacity release will put; while it is held no getScanBuffer call of any scan can be handed it;
+   release is enabled, and after it the buffer is no longer held, so a second release or a row
+   materialized from it afterwards is rejected by the discipline *)
+Lemma pooled_read_holds k c d csize ccap dsize dcap s s' evs r :
+  pooled_read k c d csize ccap dsize dcap = (evs, r) -> oreplay s evs = Some s' ->
+  assoc_n r (o_held s') = Some (if pooled_self k then ccap else dcap) /\
+  (forall size cap, ostep s' (OGet r size cap) = None) /\
+  exists s'', oreplay s' (pooled_release k ccap dcap r) = Some s'' /\
+              assoc_n r (o_held s'') = None /\
+              (forall cap, ostep s'' (OPut r cap) = None) /\ ostep s'' (ORow r) = None.
+Proof.
+  unfold pooled_read, pooled_release. intros Hp Hr.
+  assert (Hheld : assoc_n r (o_held s') = Some (if pooled_self k then ccap else dcap)).
+  { destruct (pooled_self k); inversion Hp; subst evs r; cbn [oreplay] in Hr.
+    - destruct (ostep s (OGet c csize ccap)) as [s1|] eqn:E1; [|discriminate]. inversion Hr; subst s1.
+      destruct (oget_held _ _ _ _ _ E1) as [H1 _]. rewrite H1. cbn. now rewrite N.eqb_refl.
+    - destruct (ostep s (OGet c csize ccap)) as [s1|] eqn:E1; [|discriminate].
+      destruct (ostep s1 (OGet d dsize dcap)) as [s2|] eqn:E2; [|discriminate].
+      destruct (ostep s2 (OPut c ccap)) as [s3|] eqn:E3; [|discriminate]. inversion Hr; subst s3.
+      destruct (oget_held _ _ _ _ _ E1) as [H1 _]. destruct (oget_held _ _ _ _ _ E2) as [H2 N2].
+      destruct (oput_held _ _ _ _ E3) as [H3 _]. rewrite H3, H2. rewrite H1 in N2. cbn in N2.
+      destruct (N.eqb_spec c d) as [E|NE]; [discriminate|]. cbn.
+      destruct (N.eqb_spec d c) as [E|_]; [congruence|]. cbn. now rewrite N.eqb_refl. }
+  split; [exact Hheld|]. split.
+  - intros size cap. cbn [ostep]. now rewrite Hheld.
+  - destruct (oput_enabled _ _ _ Hheld) as [s'' [Es Eh]]. exists s''. cbn [oreplay]. rewrite Es.
+    assert (Hn : assoc_n r (o_held s'') = None) by (rewrite Eh; apply assoc_remove_same).
+    split; [reflexivity|]. split; [exact Hn|]. split; [intro cap|]; cbn [ostep]; now rewrite Hn.
 Qed.
